@@ -51,16 +51,25 @@ def one_case(run, rng, i, shard=0):
     if level == "alias":
         kind = rng.choice(["int", "float"])
         pred, ignore_na = None, None
-        data = G.gen_data(rng, kind)
         spec = R.gen_alias(rng, kind)
+        data = G.gen_data(rng, kind,
+                          phys=G.gen_phys(rng, kind, {"arg": spec["args"]}, 0.4))
         desc = {"level": level, "alias": spec, "data": data, "lazy": lazy}
         sub = rng.choice(["column", "series"])
         J = R.alias_relations(run, rng, pa, pp, spec, data, sub, lazy)
     else:
-        kind = rng.choice(G.KINDS)
-        pred = G.gen_pred(rng, kind)
+        if level == "polars":
+            kind = rng.choice(G.KINDS)
+            pred = G.gen_pred(rng, kind)
+            # polars integers hold nulls natively: "Int64" only unlocks them
+            phys = "Int64" if kind == "int" and rng.random() < 0.4 else "numpy"
+        else:
+            kind = rng.choice(G.PD_KINDS)
+            pred = G.gen_pred(rng, kind)
+            phys = G.gen_phys(rng, kind, pred)
         data = G.gen_data(rng, kind, pred,
-                          min_rows=1 if level == "frame" else 0)
+                          min_rows=1 if level == "frame" else 0, phys=phys,
+                          groups=level == "groupby")
         ignore_na = rng.random() < 0.6
         desc = {"level": level, "pred": pred, "data": data,
                 "ignore_na": ignore_na, "lazy": lazy}
@@ -83,6 +92,11 @@ def one_case(run, rng, i, shard=0):
     run.case(canon_hash(desc), n > 0, sample=smp)
     run.count(f"level:{level}")
     run.count(f"kind:{kind}")
+    run.count(f"phys:{level if level in ('polars', 'alias') else 'pandas'}:"
+              f"{G.phys_of(data)}")
+    if G.phys_of(data) != "numpy" and level != "polars" and \
+            any(G.is_null(x) for x in data["v"]):
+        run.count(f"data:extension-dtype-holding-NA:{G.phys_of(data)}")
     if level != "alias":
         run.count(f"pred:{pred['op']}")
         run.count(f"ignore_na:{ignore_na}")
@@ -186,7 +200,6 @@ FLOORS_QUICK = {
     "rel:raise_warning:never-raises:evaluated": 153,
     "rel:raise_warning:warns-iff-fails:accept:evaluated": 99,
     "rel:raise_warning:warns-iff-fails:reject:evaluated": 54,
-    "rel:scalar-output==all(f(x)):evaluated": 112,
     "rel:vectorised_map:failure_cases==failing-elements:evaluated": 19,
     "rel:vectorised_map==all(f(x)):evaluated": 112,
 }
@@ -213,8 +226,11 @@ def replay(path):
         elif "groupby" in w:
             J = R.groupby_relations(
                 r, rng, pa, w["level"], w["pred"], w["data"], w["lazy"],
-                force={"two": w.get("two_columns", False), "form": w["groupby"],
-                       "groups": w["groups"], "ignore_na": w["ignore_na"]})
+                force=w.get("plan") or {
+                    "two": w.get("two_columns", False), "form": w["groupby"],
+                    "by": ["g", "h"] if w.get("two_columns") else ["g"],
+                    "groups": w["groups"], "ignore_na": w["ignore_na"],
+                    "named_emptied": False})
         elif w.get("backend") == "polars":
             J = R.polars_relations(r, rng, pp, w["pred"], w["data"],
                                    w["ignore_na"], w["lazy"])
